@@ -174,6 +174,58 @@ def build() -> Check:
     parked = {n for n in bstat.enum_members if n.startswith("SUSPENDED")}
     ck.floor("parked_statuses", len(parked), 2)
 
+    # R2 typestate: the verdict above is judged per STATUS; the done-callback and the resume timer reach those statuses through transition methods. Each
+    # transition has to land where its caller assumes (the model records the calls as events and never looks inside them):
+    #   suspend()               -> a parked status, no resume time        (otherwise the branch vetoes suspension for ever / is resumed by nobody)
+    #   suspend_with_timeout(t) -> the parked status whose verdict reads the resume time, and that time is t
+    #   reset_to_pending()      -> the status run() requires, resume time cleared   (otherwise the resubmission raises InvalidStateError in the timer thread)
+    #   run()                   -> a status that vetoes suspension and is not parked
+    #   can_resume              -> true for parked statuses only
+    def assigned(mname, attr):
+        m_ = ews.methods.get(mname)
+        if m_ is None:
+            raise AnalysisError(f"ExecutableWithState.{mname} not found")
+        return [st.value for st in ast.walk(m_.node) if isinstance(st, ast.Assign) and len(st.targets) == 1 and isinstance(st.targets[0], ast.Attribute)
+                and st.targets[0].attr == attr and isinstance(st.targets[0].value, ast.Name) and st.targets[0].value.id == "self"], m_
+
+    def status_of(mname):
+        vals, m_ = assigned(mname, "_status")
+        names = {v.attr for v in vals if isinstance(v, ast.Attribute) and isinstance(v.value, ast.Name) and v.value.id == "BranchStatus"}
+        if len(vals) != 1 or len(names) != 1:
+            raise AnalysisError(f"ExecutableWithState.{mname}: expected exactly one `self._status = BranchStatus.X`, found {[ast.unparse(v) for v in vals]}")
+        return next(iter(names)), m_
+    timed_statuses = {n.comparators[0].attr for n in ast.walk(ses.node) if isinstance(n, ast.Compare) and isinstance(n.comparators[0], ast.Attribute)
+                      and isinstance(n.comparators[0].value, ast.Name) and n.comparators[0].value.id == "BranchStatus" and len(n.ops) == 1 and isinstance(n.ops[0], (ast.Is, ast.Eq))
+                      and any(isinstance(x, ast.Attribute) and x.attr == "suspend_until" for i_ in ast.walk(ses.node) if isinstance(i_, ast.If) and i_.test is n for x in ast.walk(i_))}
+    if len(timed_statuses) != 1:
+        raise AnalysisError(f"should_execution_suspend: the status whose branch reads suspend_until is not unique: {sorted(timed_statuses)}")
+    timed = next(iter(timed_statuses))
+    run_vals, run_m = assigned("run", "_status")
+    run_req = {n.comparators[0].attr for n in ast.walk(run_m.node) if isinstance(n, ast.Compare) and isinstance(n.left, ast.Attribute) and n.left.attr == "_status"
+               and isinstance(n.comparators[0], ast.Attribute)}
+    s_susp, m_susp = status_of("suspend")
+    s_swt, m_swt = status_of("suspend_with_timeout")
+    s_rst, m_rst = status_of("reset_to_pending")
+    s_run, m_run = status_of("run")
+    until_susp = [ast.unparse(v) for v in assigned("suspend", "_suspend_until")[0]]
+    until_swt = assigned("suspend_with_timeout", "_suspend_until")[0]
+    swt_param = [a.arg for a in m_swt.node.args.args[1:]]
+    until_rst = [ast.unparse(v) for v in assigned("reset_to_pending", "_suspend_until")[0]]
+    ck.ob("R2.transition-lands-where-its-caller-assumes", fn_construct(m_susp), s_susp in parked and s_susp != timed and until_susp == ["None"],
+          f"suspend() lands in {s_susp} with resume time {until_susp}: an untimed suspension must be a parked status without a time", cell="suspend")
+    ck.ob("R2.transition-lands-where-its-caller-assumes", fn_construct(m_swt), s_swt == timed and len(until_swt) == 1 and isinstance(until_swt[0], ast.Name) and until_swt[0].id in swt_param,
+          f"suspend_with_timeout() lands in {s_swt} with resume time {[ast.unparse(v) for v in until_swt]}: the verdict reads the resume time of {timed} branches only", cell="suspend_with_timeout")
+    ck.ob("R2.transition-lands-where-its-caller-assumes", fn_construct(m_rst), run_req == {s_rst} and until_rst == ["None"],
+          f"reset_to_pending() lands in {s_rst}, run() requires {sorted(run_req)}; resume time {until_rst}", cell="reset_to_pending")
+    ck.ob("R2.transition-lands-where-its-caller-assumes", fn_construct(m_run), s_run in runnable and s_run not in parked and s_run != s_rst,
+          f"run() lands in {s_run}", cell="run")
+    cr_ = ews.methods.get("can_resume")
+    if cr_ is None:
+        raise AnalysisError("ExecutableWithState.can_resume not found")
+    cr_statuses = {n.attr for n in ast.walk(cr_.node) if isinstance(n, ast.Attribute) and isinstance(n.value, ast.Name) and n.value.id == "BranchStatus"}
+    ck.ob("R2.transition-lands-where-its-caller-assumes", fn_construct(cr_), bool(cr_statuses) and cr_statuses <= parked,
+          f"can_resume looks at {sorted(cr_statuses)}; only parked statuses ({sorted(parked)}) may be resumed by the timer", cell="can_resume")
+
     def mk(it, label, sname):
         e = Obj(exe_cls, label=f"{label}.exe")
         e.fields.update(index=Sym(f"{label}.index"), func=Sym(f"{label}.func"))
